@@ -233,9 +233,17 @@ def rule_load(r):
 
 
 from . import extra3 as _x3
+
+
+def _key(r):
+    from . import c17, shared
+    shared._relabel(c17.rule_key, "R-C18-key")(r)
+
+
 RULES = [
     ("R-C18-publish", 8, "cache path published only by rename after a successful compile", rule_publish),
     ("R-C18-owner", 4, "no library code outside make_dll removes or replaces a published cache path", _x3.rule_c18_owner),
+    ("R-C18-key", 8, "the cache name two processes agree on is a CRC of the whole source text (C17's key rule): different sources never share a published name by construction of a weaker tag", _key),
     ("R-C18-load", 4, "loader opens only the published path", rule_load),
 ]
 from .. import refs as _refs
